@@ -26,7 +26,7 @@ namespace hk::c20 {
 using namespace hk;
 using BundleSet = TSB<"C20BundleSet", Field<"a", TS<Int>>, Field<"s", TSS<Int>>>;
 using BundleDict = TSB<"C20BundleDict", Field<"d", TSD<Int, TS<Int>>>, Field<"x", TS<Int>>>;
-constexpr int NSHAPES = 9;
+constexpr int NSHAPES = 10;
 
 inline const TSValueTypeMetaData *shape_schema(int shape) {
     switch (shape) {
@@ -38,7 +38,8 @@ inline const TSValueTypeMetaData *shape_schema(int shape) {
         case 5: return schema_descriptor<TSD<Int, TSS<Int>>>::ts_meta();
         case 6: return schema_descriptor<BundleDict>::ts_meta();
         case 7: return schema_descriptor<TSW<Int, 2, 1>>::ts_meta();
-        default: return schema_descriptor<TSL<TS<Int>>>::ts_meta();  // dynamic list
+        case 8: return schema_descriptor<TSL<TS<Int>>>::ts_meta();  // dynamic list
+        default: return schema_descriptor<TSW<Int, 3, 2>>::ts_meta();  // tick window that is invalid below 2 elements
     }
 }
 
